@@ -115,6 +115,8 @@ CLAIMED = {
        "specification allows, parsing the built header yields exactly the encoded values - wavpack_info_decodes_partial, ape_info_decodes_partial, "
        "apeold_info_decodes_partial, ofr_info_decodes (+ ofr_encoder_string for all 65536 ids), tta_info_decodes, tak_bitreader_fields, tak_info_decodes, mpc_sv7_info_decodes_partial, mpc_sv8_info_decodes, aac_adts_info_decodes_partial, ac3_values_decode, eac3_values_decode, wave_info_reports, wave_info_decodes_partial, aiff_info_decodes_partial (80-bit extended rate modelled exactly), dsf_info_decodes_partial, dsdiff_info_decodes, oggvorbis_/oggopus_/oggspeex_/oggflac_info_decodes, oggtheora_info_decodes_partial, asf_info_decodes, mp4_info_decodes (atom walk, stsd, esds, alac, dac3), mpeg_info_decodes_cbr / _xing / _vbri / _lame (MP3 incl. the sync search, mpeg_iter_sync_chunks), ac3_info_decodes_partial, eac3_fields_decode; every format with <fmt>_info_total (all byte strings end in ok or MutagenError); the "
        "hypotheses of the _partial ones exclude exactly the open findings, which are decide-witnesses in the same files; tied by harness/info_tie_a.py and info_tie_b.py (about 50 k traces per quick run). "
+       "Theorem-instance oracle (Props/C05_Instances.lean, Spec/Info/Hyp.lean): <kind>_theorem_instance - a decidable predicate over the header fields and what follows them implies every hypothesis of the kind's decode theorem; "
+       "the driver evaluates it on each generated header and a real class that reports anything but the encoded values there is a failing input. "
        "Lean 4 theorems (Props/C05.lean): mutagen's MPEG bitrate/sample-rate tables and the WavPack/Musepack/AAC/AC-3 rate tables (regenerated from "
        "source) equal the published tables; mpeg_header_decodes - for EVERY 32-bit MPEG audio header (all field combinations incl. reserved bits) "
        "the model decoder yields the ISO version/layer/bitrate/rate/channels/padding and the ISO frame length, and rejects exactly the ISO-invalid "
@@ -182,7 +184,7 @@ CLAIMED = {
  "C17": dict(
   text="Lean 4 theorems (Props/C17.lean) over the model of loadfile/_openfile's argument logic: owner_only_closes - mutagen closes exactly the "
        "handles it opened itself, never a caller-supplied object (positional, fileobj=, or inside a FileThing); caller_object_wins; "
-       "keyword_equals_positional; path_forms_agree (str/bytes path, filename=, os.PathLike resolve to the same plan); misuse_errors "
+       "keyword_equals_positional; path_forms_agree (str/bytes path, filename= as path or os.PathLike, positional os.PathLike resolve to the same plan); filename_kw_forms_agree; misuse_errors "
        "(TypeError / ValueError); only_documented_calls - the effect language of every modelled program has exactly the six documented calls. "
        "Partial: that the format code itself gives identical results for every kind of file thing is not a theorem (the format code is not "
        "modelled); it is checked on the real objects for 8 ways of passing a file x all formats x load/save/delete/module delete (tags, bytes, "
